@@ -34,6 +34,7 @@ def check(ctx):
         traces_validated_against_impl=len(recs), runs_by_mode={t: r["counters"] for t, r in results.items()},
         bug_configs_rejected_by_tlc=bugs, exhaustive=(results["dfs"]["counters"].get("dfs_truncated", 0) == 0),
         l2_note="Lockedfile.tla (L2) is model-checked by TLC and supplies the program family; conformance of real runs is judged at L1 only")
+    settle(ctx, violations)
     return conclude(ctx, violations, "model_checking", coverage, ASSUME)
 
 
